@@ -1,14 +1,23 @@
-"""correspondence stream `forest` (C11): histories of add / remove / parent= / children= /
-sources= / sensors= / collections= / `+` on real magpylib objects and on Model/Forest.lean;
-parent pointers, children lists and the stored typed views compared after every operation
-(also after operations that raise).  The invariant oracle evaluates C11's statement on the
-real objects after every prefix."""
+"""correspondence stream `forest` (C11, C18): histories of add / remove / parent= / children= /
+sources= / sensors= / collections= / `+` / `copy()` on real magpylib objects and on
+Model/Forest.lean + Model/Copy.lean; classes (source/sensor/collection), parent pointers, children
+lists and the stored typed views of ALL objects (originals and clones) compared after every
+operation (also after operations that raise).  The objects created by `x.copy()` are numbered in
+pre-order of the copy's own `_children` lists, continuing after the existing objects, and can be
+addressed by every later operation.  The invariant oracle evaluates C11's statement on the real
+objects after every prefix.
+
+stream `label` (C18): `add_iteration_suffix(name)` and the label of `obj.copy()` against
+`addIterationSuffix` / `copyLabel`, exact comparison of the code points."""
 from vlib.driver import run_driver
 
 KINDS = "sec"  # s = source, e = sensor, c = collection
 
 
-def gen_op(rng, cur_kinds, p_bad=0.06, children_of=None):
+MAX_OBJS = 40  # no further copies once a history has this many objects
+
+
+def gen_op(rng, cur_kinds, p_bad=0.06, children_of=None, p_copy=0.08):
     cur_n = len(cur_kinds)
     colls = [i for i, k in enumerate(cur_kinds) if k == "c"]
     r = rng.random()
@@ -16,6 +25,16 @@ def gen_op(rng, cur_kinds, p_bad=0.06, children_of=None):
     if r < p_bad:
         return {"op": "bad", "what": rng.choice(["add-int", "add-str", "remove-int", "parent-int", "children-int", "add-nested-list"]),
                 "c": rng.choice(colls)}
+    if cur_n < MAX_OBJS and rng.random() < p_copy:
+        # copies of populated (possibly nested, possibly owned) collections are the interesting ones
+        full = [c for c in colls if children_of and children_of.get(c)]
+        if full and rng.random() < 0.65:
+            if rng.random() < 0.5:  # the collection with the largest tree below it (nested copies)
+                def size(c, d=0):
+                    return 1 + sum(size(x, d + 1) for x in children_of.get(c, [])) if d < 64 else 1
+                return {"op": "copy", "o": max(full, key=size)}
+            return {"op": "copy", "o": rng.choice(full)}
+        return {"op": "copy", "o": rng.randrange(cur_n)}
     if r < 0.40:
         return {"op": "add", "c": rng.choice(colls), "objs": pick(rng.choice([1, 1, 2, 3])), "ov": rng.random() < 0.6}
     if r < 0.58:
@@ -63,6 +82,8 @@ def model_lines(h, plus_ok=None):
             lines.append(f"forest typed {op['c']} {op['k']} {ids(op['objs'])}")
         elif k == "plus":
             lines.append(f"forest plus {op['a']} {op['b']}")
+        elif k == "copy":
+            lines.append(f"forest copy {op['o']}")
         else:
             lines.append("forest bad")
     return lines
@@ -78,20 +99,71 @@ def mk(kind, i):
     return [magpy.magnet.Cuboid, magpy.current.Circle, magpy.misc.Dipole, magpy.magnet.Sphere][i % 4]()
 
 
+def kind_of(o):
+    import magpylib as magpy
+
+    return "c" if isinstance(o, magpy.Collection) else ("e" if isinstance(o, magpy.Sensor) else "s")
+
+
 def dump_real(objs):
     import magpylib as magpy
 
-    idx = {id(o): i for i, o in enumerate(objs)}
+    idx = {}
+    for i, o in enumerate(objs):
+        idx.setdefault(id(o), i)  # an object reached twice keeps its first number (so sharing shows up as a difference)
     parts = []
     for i, o in enumerate(objs):
         p = o._parent
         ps = "-" if p is None else str(idx.get(id(p), "?"))
         if isinstance(o, magpy.Collection):
             f = lambda xs: "[" + ", ".join(str(idx.get(id(x), "?")) for x in xs) + "]"
-            parts.append(f"{i}:{ps} C{f(o._children)} S{f(o._sources)} E{f(o._sensors)} L{f(o._collections)}")
+            parts.append(f"{i}{kind_of(o)}:{ps} C{f(o._children)} S{f(o._sources)} E{f(o._sensors)} L{f(o._collections)}")
         else:
-            parts.append(f"{i}:{ps} C[] S[] E[] L[]")
+            parts.append(f"{i}{kind_of(o)}:{ps} C[] S[] E[] L[]")
     return " | ".join(parts)
+
+
+def preorder(root, limit=10_000):
+    """the objects of a (copied) tree in pre-order of the stored `_children` lists"""
+    out, stack = [], [root]
+    while stack and len(out) < limit:
+        x = stack.pop()
+        out.append(x)
+        stack.extend(reversed(list(getattr(x, "_children", []))))
+    return out
+
+
+def copy_facts(orig, new, objs, clones):
+    """C18's tree-level statement evaluated on the real objects right after `new = orig.copy()`;
+    returns None or a description"""
+    if new is orig:
+        return "copy() returned the original object"
+    if type(new) is not type(orig):
+        return f"copy of {type(orig).__name__} is a {type(new).__name__}"
+    if new._parent is not None:
+        return f"the copy has parent {new._parent!r}"
+    old_ids = {id(o) for o in objs}
+    if len({id(x) for x in clones}) != len(clones):
+        return "an object occurs twice in the copied tree"
+    shared = [x for x in clones if id(x) in old_ids]
+    if shared:
+        return f"the copied tree contains the existing object {shared[0]!r}"
+    originals = preorder(orig)
+    if len(originals) != len(clones):
+        return f"original subtree has {len(originals)} objects, the copy {len(clones)}"
+    pos = {id(x): i for i, x in enumerate(originals)}
+    cpos = {id(x): i for i, x in enumerate(clones)}
+    for a, b in zip(originals, clones):
+        if type(a) is not type(b):
+            return f"clone of {a!r} is {b!r}"
+        for attr in ("_children", "_sources", "_sensors", "_collections"):
+            if hasattr(a, attr) or hasattr(b, attr):
+                la, lb = getattr(a, attr, None), getattr(b, attr, None)
+                if la is None or lb is None or la is lb or [pos.get(id(x)) for x in la] != [cpos.get(id(x)) for x in lb]:
+                    return f"{attr} of the clone of {a!r} is not the list of clones, in order"
+        if a is not orig and (b._parent is None or pos.get(id(a._parent)) != cpos.get(id(b._parent))):
+            return f"parent of the clone of {a!r} is not the clone of its parent"
+    return None
 
 
 def invariant_real(objs):
@@ -146,10 +218,10 @@ def invariant_real(objs):
     return None
 
 
-def real_lines(h, rng=None, n_ops=0):
+def real_lines(h, rng=None, n_ops=0, p_copy=0.08):
     """returns (lines, invariant_failures, errkinds).  When `h["ops"]` is None the operations are
-    generated while running (so that ids of collections created by `+` can be used later) and
-    stored into `h`."""
+    generated while running (so that ids of collections created by `+` and of clones created by
+    `copy()` can be used later) and stored into `h`."""
     import magpylib as magpy
     from magpylib._src.exceptions import MagpylibBadUserInput
 
@@ -167,15 +239,30 @@ def real_lines(h, rng=None, n_ops=0):
                 break
             idx = {id(o): i for i, o in enumerate(objs)}
             ch = {i: [idx[id(x)] for x in o._children if id(x) in idx] for i, o in enumerate(objs) if isinstance(o, magpy.Collection)}
-            op = gen_op(rng, ["c" if isinstance(o, magpy.Collection) else ("e" if isinstance(o, magpy.Sensor) else "s") for o in objs], children_of=ch)
+            op = gen_op(rng, [kind_of(o) for o in objs], children_of=ch, p_copy=p_copy)
             h["ops"].append(op)
         else:
             if j >= len(h["ops"]):
                 break
             op = h["ops"][j]
         k = op["op"]
+        bad = None
         try:
-            if k == "add":
+            if k == "copy":
+                if not 0 <= op["o"] < len(objs):
+                    raise MagpylibBadUserInput("no such object")  # the model refuses the same way
+                orig = objs[op["o"]]
+                had_parent = orig._parent
+                new = orig.copy()
+                clones = preorder(new)
+                bad = copy_facts(orig, new, objs, clones)
+                if bad is None and orig._parent is not had_parent:
+                    bad = "copy() changed the parent of the original"
+                op["size"] = len(clones)
+                op["first"] = len(objs)
+                op["owned"] = had_parent is not None
+                objs.extend(clones)
+            elif k == "add":
                 objs[op["c"]].add(*[objs[i] for i in op["objs"]], override_parent=op["ov"])
             elif k == "remove":
                 objs[op["c"]].remove(*[objs[i] for i in op["objs"]], recursive=op["rec"], errors="raise" if op["raise"] else "ignore")
@@ -212,23 +299,25 @@ def real_lines(h, rng=None, n_ops=0):
             tag = "err"
             errs.append(f"{k}:Foreign:{type(e).__name__}")
         out.append(f"{tag} " + dump_real(objs))
-        try:
-            bad = invariant_real(objs)
-        except Exception as e:  # e.g. infinite recursion inside the library on a cyclic tree
-            bad = f"evaluating the views raised {type(e).__name__}"
+        if bad is None:
+            try:
+                bad = invariant_real(objs)
+            except Exception as e:  # e.g. infinite recursion inside the library on a cyclic tree
+                bad = f"evaluating the views raised {type(e).__name__}"
         if bad:
             inv_fail.append((j, bad))
             break
     return out, inv_fail, errs
 
 
-def run_stream(ctx, n_hist, n_ops, want_model=True):
+def run_stream(ctx, n_hist, n_ops, want_model=True, p_copy=0.08):
     stats = {"histories": 0, "ops": 0, "op_kinds": {}, "err_kinds": {}, "rejected_ops": 0, "disagreements": 0,
-             "distinct_states": 0, "max_objects": 0}
+             "distinct_states": 0, "max_objects": 0, "copies": 0, "copies_of_owned_objects": 0, "copied_tree_sizes": {},
+             "ops_addressing_clones": 0}
     seen = set()
     samples, inv_failures = [], []
     hists = [{"kinds": gen_kinds(ctx.rng), "ops": None} for _ in range(n_hist)]
-    reals = [real_lines(h, ctx.rng, n_ops) for h in hists]
+    reals = [real_lines(h, ctx.rng, n_ops, p_copy) for h in hists]
     all_lines, spans = [], []
     for h in hists:
         ls = model_lines(h)
@@ -238,8 +327,17 @@ def run_stream(ctx, n_hist, n_ops, want_model=True):
     for h, (a, b), (rl, inv_fail, errs) in zip(hists, spans, reals):
         stats["histories"] += 1
         stats["ops"] += len(rl) - 1
+        clone_ids = set()
         for op in h["ops"][: len(rl) - 1]:
             stats["op_kinds"][op["op"]] = stats["op_kinds"].get(op["op"], 0) + 1
+            mentioned = [op[key] for key in ("c", "o", "p", "a", "b") if key in op] + list(op.get("objs", []))
+            if clone_ids.intersection(mentioned):
+                stats["ops_addressing_clones"] += 1
+            if op["op"] == "copy" and "size" in op:
+                stats["copies"] += 1
+                stats["copies_of_owned_objects"] += int(op["owned"])
+                stats["copied_tree_sizes"][str(op["size"])] = stats["copied_tree_sizes"].get(str(op["size"]), 0) + 1
+                clone_ids.update(range(op["first"], op["first"] + op["size"]))
         for e in errs:
             stats["err_kinds"][e] = stats["err_kinds"].get(e, 0) + 1
         stats["rejected_ops"] += len(errs)
@@ -265,3 +363,108 @@ def run_stream(ctx, n_hist, n_ops, want_model=True):
     stats["distinct_states"] = len(seen)
     stats["samples"] = samples
     return stats, inv_failures
+
+
+# ---------------------------------------------------------------------------------------------
+# stream `label`: add_iteration_suffix / the label of a copy
+
+
+def gen_name(rng):
+    """labels over letters, digits, underscores (and a few other printable ASCII characters), with
+    trailing digit runs of width 1-4 incl. the 9 / 99 / 999 / 9999 roll-over, leading zeros,
+    all-digit names, the empty name, names ending in one or more underscores"""
+    alpha = "abcxyzABCXYZ"
+    body_chars = alpha + "_" + "0123456789" + " -.()"
+    r = rng.random()
+    if r < 0.03:
+        return ""
+    if r < 0.06:
+        return "_" * rng.choice([1, 1, 2, 3])
+    body = "".join(rng.choice(alpha if rng.random() < 0.7 else body_chars) for _ in range(rng.choice([0, 1, 1, 2, 3, 5, 8])))
+    sep = rng.choice(["", "", "_", "_", "__", "-", " "])
+    w = rng.choice([0, 0, 1, 1, 2, 2, 3, 4])
+    if w == 0:
+        digits = ""
+    else:
+        digits = rng.choice(["9" * w, "0" * w, "0" * (w - 1) + "9", "1" + "9" * (w - 1), "8" + "9" * (w - 1),
+                             "".join(rng.choice("0123456789") for _ in range(w)),
+                             "".join(rng.choice("0123456789") for _ in range(w)),
+                             "".join(rng.choice("09") for _ in range(w))])
+    if rng.random() < 0.1 and digits:
+        body = ""  # all-digit names
+        sep = rng.choice(["", "", "_"])
+    if rng.random() < 0.08:
+        # a digit run in the middle that must be left alone
+        body += rng.choice(["7", "99", "12_"]) + rng.choice(alpha)
+    return body + sep + digits
+
+
+def enc(s):
+    return " ".join([str(len(s))] + [str(ord(c)) for c in s])
+
+
+def run_label_stream(ctx, n_names, n_copies, want_model=True):
+    """`add_iteration_suffix(name)` for `n_names` generated names, and `obj.copy().style.label` for
+    `n_copies` real objects (labelled, unlabelled with / without a style object) against the model"""
+    import magpylib as magpy
+    from magpylib._src.utility import add_iteration_suffix
+
+    stats = {"names": 0, "copies": 0, "disagreements": 0, "shapes": {}, "rollovers": 0, "distinct_names": 0}
+    lines, real, meta = [], [], []
+    names = ["", "_", "col", "col_", "col1", "col_02", "x09", "x99", "9", "99", "999", "9999", "0099", "a__", "a_9", "a9_", "x_0999", "007"]
+    names += [gen_name(ctx.rng) for _ in range(n_names)]
+    for name in names:
+        lines.append("forest label " + enc(name))
+        try:
+            real.append("ok " + enc(add_iteration_suffix(name)))
+        except Exception as e:  # noqa: BLE001
+            real.append(f"err {type(e).__name__}")
+        meta.append({"fn": "add_iteration_suffix", "name": name})
+        stats["names"] += 1
+        m = len(name) - len(name.rstrip("0123456789"))
+        shape = "empty" if not name else ("all-digits" if m == len(name) else (f"digits{min(m, 5)}" if m else ("underscore-end" if name.endswith("_") else "plain")))
+        stats["shapes"][shape] = stats["shapes"].get(shape, 0) + 1
+        stats["rollovers"] += int(m > 0 and set(name[-m:]) == {"9"})
+    stats["distinct_names"] = len(set(names))
+    makers = [("Sensor", magpy.Sensor), ("Collection", magpy.Collection), ("Cuboid", magpy.magnet.Cuboid),
+              ("Dipole", magpy.misc.Dipole), ("Circle", magpy.current.Circle)]
+    for i in range(n_copies):
+        cls, mk_ = makers[i % len(makers)]
+        mode = ctx.rng.choice(["label", "label", "label", "touched", "kwargs", "untouched"])
+        if mode == "label":
+            name = gen_name(ctx.rng)
+            obj = mk_(style_label=name)
+            lines.append(f"forest copylabel {enc(cls)} 1 1 {enc(name)}")
+        elif mode == "touched":  # style object exists, no label
+            obj = mk_()
+            _ = obj.style
+            name = None
+            lines.append(f"forest copylabel {enc(cls)} 1 0")
+        elif mode == "kwargs":  # style keyword arguments given, no label
+            obj = mk_(style_opacity=0.5)
+            name = None
+            lines.append(f"forest copylabel {enc(cls)} 1 0")
+        else:  # no style object, no style arguments: the copy stays unlabelled
+            obj = mk_()
+            name = None
+            lines.append(f"forest copylabel {enc(cls)} 0 0")
+        try:
+            lab = obj.copy().style.label
+            real.append("ok none" if lab is None else "ok " + enc(lab))
+            if obj.style.label != name:
+                real[-1] += " original-label-changed"
+        except Exception as e:  # noqa: BLE001
+            real.append(f"err {type(e).__name__}")
+        meta.append({"fn": f"{cls}.copy().style.label", "mode": mode, "name": name})
+        stats["copies"] += 1
+        stats["shapes"]["copy:" + mode] = stats["shapes"].get("copy:" + mode, 0) + 1
+    if want_model:
+        ml = run_driver(lines)
+        for x, y, mt, ln in zip(ml, real, meta, lines):
+            if x != y:
+                stats["disagreements"] += 1
+                if stats["disagreements"] <= 3:
+                    ctx.broken.append({"kind": "correspondence", "name": "label",
+                                       "detail": {**mt, "line": ln, "model": x, "real": y}})
+    stats["samples"] = [{"name": n, "iterated": add_iteration_suffix(n)} for n in names[18:24]]
+    return stats
